@@ -178,7 +178,7 @@ class Driver:
             return None
         data = "".join(json.dumps(r, separators=(",", ":")) + "\n" for r in requests)
         p = subprocess.run([str(DRIVER)], input=data.encode(), stdout=subprocess.PIPE, stderr=subprocess.PIPE, timeout=timeout)
-        outs = [json.loads(l) for l in p.stdout.decode().splitlines() if l.strip()]
+        outs = [json.loads(l) for l in p.stdout.decode().split("\n") if l.strip()]
         if len(outs) != len(requests):
             raise RuntimeError(f"driver answered {len(outs)} of {len(requests)} requests; rc={p.returncode}; stderr={p.stderr.decode()[-500:]}")
         res = []
